@@ -132,3 +132,14 @@ PROPS['C13'] = {
     'outside': ['String elements', 'real HashMap (SipHash) runs', 'float-to-decimal formatting', 'executing {:#?} (PadAdapter loops exhaust CBMC; covered by M\'s delegation obligation)'],
     'assumptions': [],
 }
+
+PROPS['C19'] = {
+    'kani': {
+        'quick': [krun(['c19::q::'], flags=['-Z', 'stubbing'], timeout=900, bounds='every N in 0..=8 (all even/odd storage shapes to depth 4); symbolic prior contents; T in {u8,u64,[u8;3],GenericArray<u8,U2>,ZD (zero != default per field)}; witness index symbolic')],
+        'thorough': [krun(['c19::'], flags=['-Z', 'stubbing'], timeout=2400, bounds='N in 0..=17, 21, 26, 31..=33, 42, 63, 64, 127, 128, 255, 256')],
+    },
+    'functions': ['Zeroize for GenericArray', 'ConstDefault for GenericArrayImplEven/GenericArrayImplOdd/GenericArray', 'GenericArray::const_default', 'Default for GenericArray'],
+    'bounds': 'K: concrete N from the lattice, contents and witness index symbolic.',
+    'outside': ['N outside the lattice (L: every node literal names every field; slot count follows the layout induction)'],
+    'assumptions': ['stub: zeroize::optimization_barrier (inline-asm compiler barrier without semantic effect) replaced by an empty body (-Z stubbing)'],
+}
